@@ -200,6 +200,20 @@ def run(tier, seed, replay):
         lines.append("C01.matmul_dia " + json.dumps({"a": dia_json(DL), "b": dia_json(DR), "scale": [int(sc.real), int(sc.imag)]}))
         prod = _data.matmul_dia(DL, DR, sc)
         expect.append(("abs_offsets", prod.to_array(), sorted(int(o) for o in prod.as_scipy().offsets)))
+        # iadd_dense: the buffers themselves, all four combinations of memory orders
+        iadd = importlib.import_module("qutip.core.data.add").iadd_dense
+        other = pattern(rng, shape, "full")
+        for lf in (False, True):
+            for rf in (False, True):
+                Ld = _data.Dense(np.array(a, order="F" if lf else "C"), copy=False)
+                Rd = _data.Dense(np.array(other, order="F" if rf else "C"), copy=False)
+
+                def buf(D, f_):
+                    return [[int(z.real), int(z.imag)] for z in D.as_ndarray().ravel(order="F" if f_ else "C")]
+                lines.append("C01.iadd_dense " + json.dumps({"l": {"rows": shape[0], "cols": shape[1], "fortran": lf, "data": buf(Ld, lf)},
+                                                              "r": {"rows": shape[0], "cols": shape[1], "fortran": rf, "data": buf(Rd, rf)}, "scale": [int(sc.real), int(sc.imag)]}))
+                res_ = iadd(Ld, Rd, sc)
+                expect.append(("buffer", buf(res_, lf), res_.to_array()))
         for cj in (False, True):
             lines.append("C01.transpose_dia " + json.dumps({"a": dia_json(DL), "conj": cj}))
             tr_ = _data.adjoint_dia(DL) if cj else _data.transpose_dia(DL)
@@ -215,6 +229,9 @@ def run(tier, seed, replay):
             if m["r"] != e["r"] or not np.array_equal(dec(m["back_c"]), e["back_c"]) or not np.array_equal(dec(m["back_f"]), e["back_f"]) \
                     or not np.array_equal(dec(m["transposed_view"]), e["tview"]) or not e["tfortran"]:
                 bad = {"model_rows": m["r"], "impl_rows": e["r"]}
+        elif ex[0] == "buffer":
+            if m["data"] != ex[1] or not np.array_equal(dec(m["abs"]), ex[2]):
+                bad = {"model_buffer": m["data"][:12], "impl_buffer": ex[1][:12]}
         elif ex[0] == "abs_offsets":
             if not np.array_equal(dec(m["abs"]), ex[1]) or (sorted(m["offsets"]) != ex[2] and np.abs(ex[1]).max() > 0):
                 bad = {"model_offsets": m["offsets"], "impl_offsets": ex[2]}
